@@ -275,10 +275,10 @@ def folderEff (n : Node) : Op → Folder → Folder
     fun G => if n.power = .on then
       (if G.name = F ∧ G.deleted = false then G.mapLiveFile f (fun x => (x.handle r).1) else G) else G
   | .fsDeleteFolder F =>
-    fun G => if n.power = .on ∧ F ≠ "root" then (if G.name = F ∧ G.deleted = false then G.delete else G) else G
+    fun G => if n.power = .on ∧ F ≠ "root" then (if G.name = F ∧ G.deleted = false then G.deleteAt (n.fdelCtr + 1) else G) else G
   | .fsRestoreFile F f =>
     fun G => if n.power = .on then (if G.name = F ∧ G.deleted = false then G.mapFile f (File.restoreIn G.files) else G) else G
-  | .fsRestoreFolder F => fun G => if n.power = .on then (if G.name = F then G.restore else G) else G
+  | .fsRestoreFolder F => fun G => if n.power = .on then (if G.name = F then Folder.restoreIn n.folders G else G) else G
   | .fileSet F f h => fun G => if G.name = F then G.mapFile f (fun x => { x with actual := h }) else G
   | _ => fun G => G
 
@@ -475,6 +475,10 @@ theorem anyLiveCorrupt_map_scan (fs : List File) : anyLiveCorrupt (fs.map File.s
 end folder
 
 
+theorem Folder.restoreIn_cases (fo : List Folder) (G : Folder) :
+    Folder.restoreIn fo G = G ∨ Folder.restoreIn fo G = G.restore := by
+  unfold Folder.restoreIn; (repeat' split) <;> first | exact Or.inl rfl | exact Or.inr rfl
+
 /-! ### item-wise effect on files -/
 
 /-- effect of any operation on one file `f` of folder `G` -/
@@ -601,13 +605,14 @@ theorem folderEff_files (n : Node) (op : Op) (G : Folder) :
       simp [h, hn, hd, Folder.mapLiveFile]
   case fsDeleteFolder F =>
     by_cases h : n.power = .on <;> by_cases hn : G.name = F <;> by_cases hd : G.deleted = false <;>
-      by_cases hr : F = "root" <;> simp [h, hn, hd, hr, Folder.delete]
+      by_cases hr : F = "root" <;> simp [h, hn, hd, hr, Folder.delete, Folder.deleteAt]
   case fsRestoreFile F nm =>
     by_cases h : n.power = .on <;> by_cases hn : G.name = F <;> by_cases hd : G.deleted = false <;>
       simp [h, hn, hd, Folder.mapFile, mapNamed]
   case fsRestoreFolder F =>
-    by_cases h : n.power = .on <;> by_cases hn : G.name = F <;> simp [h, hn, Folder.restore]
-    split <;> rfl
+    by_cases h : n.power = .on <;> by_cases hn : G.name = F <;> simp [h, hn]
+    rcases Folder.restoreIn_cases n.folders G with e | e <;> rw [e]
+    unfold Folder.restore; split <;> rfl
   case fileSet F nm hh =>
     by_cases hn : G.name = F <;> simp [hn, Folder.mapFile, mapNamed]
   all_goals simp
